@@ -26,8 +26,17 @@ def qsbr_binary(asan=True):
                  repo_sources=["qsbr.cpp", "qsbr_ptr.cpp"])
 
 
+def lock_binary(asan=True):
+    return build("lock_runner" + ("_asan" if asan else ""), ["engines/sched/lock_runner.cpp"], olc_flags(asan), repo_sources=[])
+
+
+def mutex_binary(asan=True):
+    # defining pthread_mutex_lock in the executable does not combine with libasan's start-up: no sanitizer here
+    return build("mutex_runner", ["engines/sched/mutex_runner.cpp"], olc_flags(False), repo_sources=["art_internal.cpp"])
+
+
 def binary_for(sc):
-    return {"olc": olc_binary, "qsbr": qsbr_binary}[sc.get("runner", "olc")](True)
+    return {"olc": olc_binary, "qsbr": qsbr_binary, "lock": lock_binary, "mutex": mutex_binary}[sc.get("runner", "olc")](True)
 
 
 def read_progress(path):
@@ -49,6 +58,14 @@ def scenario_args(sc):
         a = ["--id", sc["id"]]
         for t in sc["threads"]:
             a += ["--thread", t if t else "-"]
+    elif sc.get("runner") in ("lock", "mutex"):
+        a = ["--id", sc["id"]]
+        if sc.get("init"):
+            a += ["--init", ",".join(sc["init"])]
+        for t in sc["threads"]:
+            a += ["--thread", ",".join(t)]
+        if sc.get("closure"):
+            a += ["--closure"]
     else:
         a = ["--id", sc["id"], "--init", ",".join(sc["init"])]
         for t in sc["threads"]:
@@ -160,7 +177,7 @@ def run_scenarios(prop, tier, scenarios, deadline_s, runner="olc", extra_assumpt
                 if not ok:
                     report.infra_errors.append("unconfirmed violation in %s: %s" % (sc["id"], why))
                     continue
-                payload = dict(engine=engine_name, scenario={k: sc[k] for k in ("id", "init", "threads", "runner", "delay_bounded") if k in sc},
+                payload = dict(engine=engine_name, scenario={k: sc[k] for k in ("id", "init", "threads", "runner", "delay_bounded", "closure") if k in sc},
                                choices=v["choices"], preemptions=v["preemptions"], property=v["property"],
                                signature=v["signature"], what=v["what"], build_flags=olc_flags(True))
                 report.violation(v["property"], v["signature"], v["what"], payload, sc["id"])
@@ -176,7 +193,7 @@ def run_scenarios(prop, tier, scenarios, deadline_s, runner="olc", extra_assumpt
                 report.infra_errors.append("unconfirmed fatal verdict in %s (rc=%r, %s): %s" % (sc["id"], rc, pr["what"], why))
                 continue
             what = pr["what"] or ("runner ended with status %r: %s" % (rc, se[-300:]))
-            payload = dict(engine=engine_name, scenario={k: sc[k] for k in ("id", "init", "threads", "runner", "delay_bounded") if k in sc},
+            payload = dict(engine=engine_name, scenario={k: sc[k] for k in ("id", "init", "threads", "runner", "delay_bounded", "closure") if k in sc},
                            choices=pr["choices"], property=vprop, signature=vsig, what=what, exit_status=rc,
                            stderr_tail=se[-1500:], build_flags=olc_flags(True))
             agg["violations_total"] += 1
